@@ -80,6 +80,26 @@ def run(check):
         g["scripts"] = gen.make_scripts(prog.steps, g["outcome"])
         g["shape"] = "%s/evalfault(%s)" % (g["shape"], what)
         gs.append(g)
+    # values computed from what steps returned: arithmetic, comparison and conversion over integers and floats of step outputs
+    # (also as the input of a later step), with inputs of both signs
+    from ..model import Bin, Call, Lit, In
+    for i in range(check.pick(60, 600)):
+        rng = random.Random(derive_seed(check.seed, "c03-arith", i))
+        nsteps = rng.choice([2, 3])
+        steps, outs = gen.shape_chain(rng, nsteps)
+        steps[0].fields["input"]["f"] = rng.choice([2.5, -0.75, 1e3])
+        n0, n1 = Ref("s0", "outputs", "success", "n"), Ref("s1", "outputs", "success", "n")
+        exprs = {"plus": Bin("+", n0, Lit(1)), "minus": Bin("-", n1, Lit(100)), "times": Bin("*", n0, n1), "greater": Bin(">", n0, Lit(2)), "equal": Bin("==", n1, Bin("+", n0, Lit(1))),
+                 "text": Call("intToString", n0), "float": Bin("+", Ref("s0", "outputs", "success", "f"), Lit(1.5)), "tofloat": Call("intToFloat", n1)}
+        for k in rng.sample(sorted(exprs), rng.choice([1, 2, 4])):
+            outs["success"][k] = Expr(exprs[k])
+        if rng.random() < 0.5:
+            # the next step counts on from a computed value
+            steps[-1].fields["input"]["n"] = Expr(Bin("+", Ref("s%d" % (nsteps - 2), "outputs", "success", "n"), Lit(10)))
+        prog = Program(steps, outs, gen.BASE_INPUT)
+        inp = gen.base_input(rng)
+        inp["n"] = rng.choice([0, 1, 5, 41, -1, -7, 2 ** 40, -(2 ** 40)])
+        gs.append({"program": prog, "scripts": gen.make_scripts(steps, {}), "input": inp, "shape": "chain%d/computed-values" % nsteps, "outcome": {}})
     items = []
     for i, g in enumerate(gs):
         rng = random.Random(derive_seed(check.seed, "c03-opt", i))
